@@ -86,6 +86,10 @@ def defects(d):
         # 2 more than one reference unit
         emit("two-ref-units", a=attrs + ['#[ref_unit(%s_Second_Ref, "r2")]' % t])
         emit("two-ref-units-first", a=['#[ref_unit(%s_Second_Ref, "r2")]' % t] + attrs)
+        # ... the second one a token-for-token repetition of the first (last, and directly after the first)
+        emit("two-identical-ref-units", a=attrs + [attrs[0]])
+        emit("two-identical-ref-units-adjacent", a=[attrs[0]] + attrs)
+        emit("three-ref-units", a=attrs + ['#[ref_unit(%s_Second_Ref, "r2")]' % t, '#[ref_unit(%s_Third_Ref, "r3")]' % t])
         # 3 scale on the reference unit
         r = d["ref"]
         emit("scale-on-ref-unit", a=replace(0, '#[ref_unit(%s, %s, 1.0)]' % (r["id"], catalogue.rust_str(r["sym"]))))
